@@ -1,6 +1,7 @@
 (* C02 — schema-to-model structure fidelity (no silently lost fields).
    Only statements, [exact], and Print Assumptions live here. *)
 From PG Require Import Lib.Strs Model.AllOf Model.Parser Proofs.AllOf Proofs.Parser Gen.T_C02.
+From Coq Require Import Permutation.
 
 (* The allOf merge is exactly the declared semantics over flat parents, for ALL member lists and ALL property lists:
    the value of a key is the one of the first member that defines it, every key appears once and in order of first
@@ -134,3 +135,15 @@ Theorem C02_regression_F02f :
   /\ has_ev EvMarked (parse_doc default_max_depth spec_F02f) = false.
 Proof. exact regression_F02f. Qed.
 Print Assumptions C02_regression_F02f.
+
+(* Order independence (needed by C19): for documents of the fragment of C02_partial, permuting the declarations does not
+   change any schema's model fields - for EVERY name n (declared names: both sides equal `declared`; other names: no
+   entry on either side).  The guards are required of both orders, as a permutation changes neither of them in
+   substance (core_spec, acyclicity and the depth bound do not depend on the order; the rank witness may be reused). *)
+Theorem C02_order_independent : forall md S S' rk rk',
+  core_spec S = true -> ranked_b rk S = true -> depth_ok rk S md = true ->
+  core_spec S' = true -> ranked_b rk' S' = true -> depth_ok rk' S' md = true ->
+  Permutation S S' ->
+  forall n, model_fields (parse_doc md S) n = model_fields (parse_doc md S') n.
+Proof. exact order_independent. Qed.
+Print Assumptions C02_order_independent.
